@@ -238,6 +238,10 @@ def c04_case():
                                     "auto_po2", "auto_po2"]))
       kw["alpha"] = alpha
       kw["use_01"] = draw(st.booleans())
+      if draw(st.integers(0, 3)) == 0:
+        # inference phase only (learning phase 0): documented to behave as the
+        # deterministic sign; the training phase belongs to C08
+        kw["use_stochastic_rounding"] = True
       if isinstance(alpha, str):
         lay = layout(draw)
         if lay["scale_axis"] is not None:
@@ -273,6 +277,8 @@ def c04_case():
       gid = R.group_ids(shape, None, None)
       if isinstance(alpha, str):
         kw["number_of_unrolls"] = draw(st.sampled_from([1, 2, 3, 5, 5, 5, 4]))
+        if draw(st.integers(0, 3)) == 0:
+          kw["use_stochastic_rounding"] = True     # inference phase only
         xs, info = grouped_tensor(draw, shape, gid)
       else:
         thr = draw(st.sampled_from(TERNARY_THRESHOLDS))
@@ -339,6 +345,16 @@ def c05_case():
       ub = bits - 1
       kw["integer"] = draw(st.integers(0, min(3, ub)))
       lay = layout(draw, allow_eps=(alpha == "auto_po2" and mode != "pts"))
+      if draw(st.integers(0, 2)) == 0:
+        kw["use_ste"] = False          # (1-f)*x + f*xq with f = 1
+      if draw(st.integers(0, 3)) == 0:
+        kw["symmetric"] = draw(st.sampled_from([0, 1]))   # 'auto*' forces 1
+    if draw(st.integers(0, 4)) == 0:
+      kw["use_variables"] = True       # qnoise_factor becomes a tf.Variable
+      if draw(st.booleans()):
+        kw["var_name"] = draw(st.sampled_from(["q", "w_q", "layer0/kernel"]))
+    if draw(st.integers(0, 5)) == 0:
+      kw["qnoise_factor"] = 1.0
     if lay["scale_axis"] is not None:
       kw["scale_axis"] = lay["scale_axis"]
     if lay["elements_per_scale"] is not None:
